@@ -206,6 +206,7 @@ def register(reg):
     register_metarize2(reg)
     register_cleanup(reg)
     register_minsep(reg)
+    register_base_selection(reg)
 
 
 # =============================================================================================
@@ -473,8 +474,12 @@ def _metarize_post(result, self, which):
 
 
 def register_metarize2(reg):
+    def _setup_ensures(result, self, which='slices'):
+        pdf, cids = result
+        return {'ids_are_sets': Forall(0, cids.len, lambda k: cids[k] >= 0), 'one_row_per_set': And(cids.len == self.ghost['N'], pdf.n == self.ghost['N'])}
+
     for nm, res, ens, props in (
-            ('_setup_sligrolay_pdf', _setup_result, None, ('C05', 'C14', 'C01')),
+            ('_setup_sligrolay_pdf', _setup_result, _setup_ensures, ('C05', 'C14', 'C01')),
             ('_calculate_sligrolay_base_height', _base_result, _base_ensures, ('C04', 'C01')),
             ('_add_sligrolay_information', _info_result, None, ('C04',))):
         reg.add(Contract(f'{CHUNK}.{nm}', properties=props, result=res, ensures=ens,
@@ -649,3 +654,236 @@ def register_minsep(reg):
         ensures=_minsep_post,
         canaries={'always_first_value': lambda result, self, height: _rv(result) == _rv(self.fields['_prms']['MIN_SEP_VALS'][0])},
     ))
+
+
+# =============================================================================================
+# base height of a set: selection logic (C04) -- _calculate_sligrolay_base_height / _calculate_base_height_for_selection
+# =============================================================================================
+from pyvc.lib import SArr
+from pyvc.rows_model import SRowSeries
+
+BaseOfSet = z3.Function('base_of_set', z3.IntSort(), z3.RealSort())        # ghost: value returned by the base routine for table row k
+
+
+def _hit_table(ctx, idcol):
+    n = z3.Int('hits_n')
+    ctx.assume(n >= 1)
+    ctx.len_vars.append(n)
+    ceilo = z3.Array('hit_ceilo', z3.IntSort(), z3.StringSort())
+    dt = z3.Array('hit_dt', z3.IntSort(), z3.RealSort())
+    h = z3.Array('hit_height', z3.IntSort(), z3.RealSort())
+    hn = z3.Array('hit_height_nan', z3.IntSort(), z3.BoolSort())
+    ty = z3.Array('hit_type', z3.IntSort(), z3.IntSort())
+    ids = z3.Array('hit_' + idcol, z3.IntSort(), z3.IntSort())
+    cols = {'ceilo': (lambda i: SStr(ceilo[i])), 'dt': (lambda i: SFloat(dt[i], False, 'npfloat')),
+            'height': (lambda i: SFloat(h[i], hn[i], 'npfloat')), 'type': (lambda i: SInt(ty[i], 'npint')),
+            idcol: (lambda i: SInt(ids[i], 'npint'))}
+    fr = SRows(n, cols, (lambda i: i), positional=True)
+    fr.kinds = {'ceilo': 'str', 'dt': 'float', 'height': 'float', 'type': 'int', idcol: 'int'}
+    # class invariant of the hit table (C05): a hit belongs to a set iff its height is valid
+    ctx.assume(Forall(0, n, lambda i: (ids[i] >= 0) == Not(hn[i]), name='ci'))
+    # the properties' own quantifier: hit heights in [0, 100000) ft
+    ctx.assume(Forall(0, n, lambda i: Implies(Not(hn[i]), And(h[i] >= 0, h[i] < 100000)), name='hr'))
+    ctx.ghost['hits'] = dict(n=n, ceilo=ceilo, dt=dt, h=h, hn=hn, ty=ty, ids=ids, frame=fr)
+    return fr
+
+
+class ChunkWithHits(Spec):
+    def __init__(self, which, n_excl):
+        self.which, self.n_excl = which, n_excl
+
+    def make(self, name, ctx):
+        idcol = IDCOLS[self.which]
+        fr = _hit_table(ctx, idcol)
+        excl = [SStr(z3.String(f'excluded_{k}')) for k in range(self.n_excl)]
+        prms = {'EXCLUDE_FOR_BASE_HEIGHT_CALC': excl, 'MAX_HITS_OKTA0': Int(lo=0).make('MAX_HITS_OKTA0', ctx),     # documented meaning: a count
+                'BASE_LVL_LOOKBACK_PERC': Int(lo=1, hi=100).make('BASE_LVL_LOOKBACK_PERC', ctx),
+                'BASE_LVL_HEIGHT_PERC': Int(lo=0, hi=100).make('BASE_LVL_HEIGHT_PERC', ctx)}
+        N = z3.Int('N')
+        ctx.assume(N >= 0)
+        return SChunk(CHUNK, {'_prms': prms, '_data': fr}, {'N': N, 'which': self.which})
+
+    def describe(self):
+        return f'chunk with a symbolic hit table, which={self.which}, {self.n_excl} excluded ceilometer name(s)'
+
+
+IDCOLS = {'slices': 'slice_id', 'groups': 'group_id', 'layers': 'layer_id'}
+
+
+class MaskParam(Spec):
+    """a boolean row mask over the chunk's hit table (argument of _calculate_base_height_for_selection)"""
+
+    def make(self, name, ctx):
+        M = z3.Array('selection', z3.IntSort(), z3.BoolSort())
+        fr = ctx.ghost['hits']['frame']
+        return SRowSeries(fr, lambda i: SBool(M[i], 'npbool'), 'bool')
+
+    def describe(self):
+        return 'boolean row mask over the hit table'
+
+
+def _time_sorted_selection(interp, fr):
+    """assumed meaning of the pinned argument: heights of the selected hits, ordered by ascending dt (most recent last)"""
+    ctx = interp.ctx
+    L = smt.fresh_int('sel_len')
+    ctx.assume(L >= 0)
+    v = smt.fresh('sel_heights', z3.ArraySort(z3.IntSort(), z3.RealSort()))
+    vn = smt.fresh('sel_heights_nan', BoolArr)
+    arr = SArr(L, lambda i: SFloat(v[i], vn[i], 'npfloat'), 'float')
+    ctx.ghost['time_sorted_selection'] = arr
+    mask = fr.env['data_indexer']
+    g = ctx.ghost['hits']
+    # length = number of selected rows; non-empty iff some row is selected; values are heights of selected rows (NaN iff that height is NaN)
+    w = smt.fresh_int('selw')
+    ctx.assume(z3.Implies(L > 0, z3.And(w >= 0, w < g['n'], to_bool(mask.at(w)))))
+    ctx.assume(Forall(0, g['n'], lambda j: Implies(to_bool(mask.at(j)), L > 0), name='sl'))
+    pos = z3.Function('sel_pos', z3.IntSort(), z3.IntSort())
+    ctx.assume(Forall(0, L, lambda k: And(pos(k) >= 0, pos(k) < g['n'], to_bool(mask.at(pos(k))), v[k] == g['h'][pos(k)], vn[k] == g['hn'][pos(k)]), name='sp'))
+    ctx.assume(Forall(0, L, lambda a, b: g['dt'][pos(a)] <= g['dt'][pos(b)], arity=2, name='st'))
+    ctx.term_maps.append(pos)
+    ctx.hint(w)
+    return arr
+
+
+def _sel_base_result(name, ctx, self, data_indexer):
+    r = smt.fresh_real('set_base')
+    out = SFloat(r, False, 'npfloat')
+    ctx.ghost.setdefault('base_calls', []).append((data_indexer, out))
+    return out
+
+
+def _sel_requires(self, data_indexer):
+    fr = self.fields['_data']
+    g = smt.CURRENT_CTX.ghost['hits']
+    # the selection handed in is non-empty and holds valid heights only (else calc_base_height refuses / percentile is NaN)
+    return {'selection_non_empty': Exists(0, fr.n, lambda j: to_bool(data_indexer.at(j))),
+            'selection_has_valid_heights': Forall(0, fr.n, lambda j: Implies(to_bool(data_indexer.at(j)), Not(g['hn'][j])))}
+
+
+def to_bool(v):
+    from pyvc.values import to_bool_term
+    return to_bool_term(v)
+
+
+def _slb_inv(E, i):
+    T = E.pdf
+    base = T.col('height_base')
+    return {'bases': Forall(0, i, lambda k: cell(base, k, lambda v: And(Not(_isnan(v)), _rv(v) == BaseOfSet(k), _rv(v) >= 0, _rv(v) < 100000))),
+            'rows': T.n == E.self.ghost['N']}
+
+
+def _slb_body(E, i):
+    """what one iteration does for table row i (set id cid): the base routine is called once, on the right selection"""
+    ctx = smt.CURRENT_CTX
+    self = E.self
+    g = ctx.ghost['hits']
+    n, ids, ceilo = g['n'], g['ids'], g['ceilo']
+    excl = self.fields['_prms']['EXCLUDE_FOR_BASE_HEIGHT_CALC']
+    max0 = self.fields['_prms']['MAX_HITS_OKTA0'].t
+    calls = ctx.ghost.get('base_calls', [])
+    if len(calls) != 1:
+        return {'one_call_of_the_base_routine': False}
+    mask, res = calls[0]
+    cid = E.cid
+    member = lambda j: ids[j] == cid
+    allowed = lambda j: And([ceilo[j] != x.t for x in excl]) if excl else True
+    # ghost assignment: BaseOfSet(i) := the value the base routine returned for this set (unconstrained before: the invariant only
+    # speaks about rows k < i)
+    ctx.assume(BaseOfSet(i) == res.v)
+    out = {'cell_holds_the_result': cell(E.pdf.col('height_base'), i, lambda v: _rv(v) == res.v)}
+    if not excl:
+        out['selection_is_all_members'] = Forall(0, n, lambda j: to_bool(mask.at(j)) == member(j))
+        return out
+    F = smt.fresh('filtered', BoolArr)
+    ctx.assume(Forall(0, n, lambda j: F[j] == And(member(j), allowed(j)), name='fd'))
+    ctx.note_cnt(F)
+    enough = cnt(F, n) > max0
+    # hits of the excluded ceilometers are left out when more than MAX_HITS_OKTA0 other hits remain *in this set*, else all members
+    out['selection_with_fallback'] = Forall(0, n, lambda j: to_bool(mask.at(j)) == If(enough, And(member(j), allowed(j)), member(j)))
+    sums = ctx.ghost.get('mask_sums', [])
+    if sums:
+        Mexec = sums[-1][1]
+        # the count that decides the fall-back is taken over the filtered members of *this* set (pointwise equal masks; equal
+        # counts then follow by lemma cnt_ext, which the selection clause uses)
+        out['count_is_of_this_set'] = Forall(0, n, lambda j: Mexec[j] == F[j])
+        ctx.assume(cnt(Mexec, n) == cnt(F, n))        # instance of the proved lemma cnt_ext (premise = the clause above)
+        ctx.used_lemmas.add('cnt_ext')
+    return out
+
+
+def register_base_selection(reg):
+    import pyvc.inframe_model      # noqa: F401  (registers the warnings.warn model)
+    cases = [(f'{w},excl={k}', {'self': ChunkWithHits(w, k), 'which': Const(w), 'pdf': PdfAfterSetup(w), 'cluster_ids': CidsSpec()})
+             for w in ('layers', 'groups') for k in (0, 1, 2)] + [('slices,excl=1', {'self': ChunkWithHits('slices', 1), 'which': Const('slices'),
+                                                                              'pdf': PdfAfterSetup('slices'), 'cluster_ids': CidsSpec()})]
+    old = reg.get(f'{CHUNK}._calculate_sligrolay_base_height')
+    def sel_post(result, self, data_indexer):
+        g_ = smt.CURRENT_CTX.ghost['hits']
+        inside = {'finite': Not(_isnan(result)),
+                  'not_below_a_selected_hit': Exists(0, g_['n'], lambda a: And(to_bool(data_indexer.at(a)), g_['h'][a] <= _rv(result))),
+                  'not_above_a_selected_hit': Exists(0, g_['n'], lambda b: And(to_bool(data_indexer.at(b)), _rv(result) <= g_['h'][b]))}
+        if not (smt.CURRENT_CTX.fn_stack and smt.CURRENT_CTX.fn_stack[0].endswith('._calculate_base_height_for_selection')):
+            return inside                      # what call sites may rely on
+        calls = [c for c in smt.CURRENT_CTX.ghost.get('calls', []) if c[0] == 'ampycloud.utils.utils.calc_base_height']
+        if len(calls) != 1:
+            return {'one_call_of_calc_base_height': False}
+        env = calls[0][1]
+        prms = self.fields['_prms']
+        return {**inside,
+                'values_are_the_time_ordered_selection': env['vals'] is smt.CURRENT_CTX.ghost.get('time_sorted_selection'),
+                'lookback_is_BASE_LVL_LOOKBACK_PERC': env['lookback_perc'] is prms['BASE_LVL_LOOKBACK_PERC'],
+                'percentile_is_BASE_LVL_HEIGHT_PERC': env['height_perc'] is prms['BASE_LVL_HEIGHT_PERC'],
+                'result_returned_unchanged': And(_rv(result) == smt.CURRENT_CTX.ghost['cbh_result'].v, Not(_isnan(result)))}
+
+    reg.add(Contract(
+        f'{CHUNK}._calculate_base_height_for_selection', properties=('C04', 'C06'),
+        params={'self': ChunkWithHits('layers', 0), 'data_indexer': MaskParam()},
+        result=_sel_base_result, requires=_sel_requires,
+        ensures=sel_post,
+        raises={},
+        arg_pins={('calc_base_height', 0): dict(
+            source="self.data.sort_values('dt').loc[data_indexer]['height'].values",
+            value=_time_sorted_selection,
+            doc=('heights of the hits selected by the mask, in ascending time order (most recent last); ASSUMED pandas meaning of '
+                 'sort_values / .loc[bool Series] / .values, checked by the bounded stand-in of C04'))},
+        notes='at the call sites: result = base routine on the mask handed in (ghost log of the call)'))
+
+    reg.add(Contract(
+        f'{CHUNK}._calculate_sligrolay_base_height', properties=('C04', 'C06', 'C01'),
+        cases=cases,
+        requires=lambda self, which, pdf, cluster_ids: {
+            # ids handed in are the ids of existing sets (>= 0), each with at least one member hit (TI / _get_cluster_ids)
+            'ids_are_sets': Forall(0, cluster_ids.len, lambda k: cluster_ids[k] >= 0),
+            'rows': cluster_ids.len == self.ghost['N']},
+        result=old.result if old is not None else None,
+        ensures=lambda result, self, which, pdf, cluster_ids: {
+            'every_row_gets_its_base': Forall(0, result.n, lambda k: cell(result.col('height_base'), k, lambda v: And(Not(_isnan(v)), _rv(v) == BaseOfSet(k)))),
+            # a base lies between two member hits: finite and inside the range of the hit heights
+            'finite_in_range': Forall(0, result.n, lambda i: cell(result.col('height_base'), i, lambda v: And(Not(_isnan(v)), _rv(v) >= 0, _rv(v) < 100000))),
+            'same_table': result is pdf},
+        loops={0: {'invariant': _slb_inv, 'modifies': ['pdf', 'ind', 'cid', 'in_sligrolay', 'in_sligrolay_filtered'],
+                   'modifies_cols': {'pdf': ['height_base']},
+                   'col_models': {'height_base': lambda n: fresh_column(n, 'height_base', 'float', 'npfloat', with_defd=True)},
+                   'body_obligations': _slb_body,
+                   'assume_in_body': lambda E, i: [_member_exists(E)]}},
+    ))
+
+
+def _member_exists(E):
+    """every id in cluster_ids is the id of at least one hit (they come from np.unique of the id column)"""
+    g = smt.CURRENT_CTX.ghost['hits']
+    return Exists(0, g['n'], lambda j: g['ids'][j] == E.cid)
+
+
+def finalize(reg):
+    """after every module has registered: let the modular result of calc_base_height be observable by sel_post"""
+    cbh = reg.get('ampycloud.utils.utils.calc_base_height')
+    if cbh is not None and not getattr(cbh, '_logs_result', False):
+        spec_ = cbh.result
+
+        def logged(name, ctx, **env):
+            r = spec_.make(name, ctx)
+            ctx.ghost['cbh_result'] = r
+            return r
+        cbh.result = logged
+        cbh._logs_result = True
